@@ -363,6 +363,21 @@ def run_cse_trees(ctx, w, S, M):
                            f"real {render_forest(real['out']) if real['ok'] else real['error']!r}, "
                            f"model {render_forest(a['out']) if a['ok'] else a['error']!r}")
     ctx.extra["cse_trees_substitutions_compared"] = n_sub
+    # side conditions of `cseTrees_preserves_sols_partial` on the same inputs (proved checker in the driver)
+    checks = drv.ask_many([{"kind": "cse_check", **rec} for rec, _ in items])
+    n_cap = len(w.seen_cse)
+    uncovered = []
+    for idx, ((rec, real), c) in enumerate(zip(items, checks)):
+        src = "captured" if idx < n_cap else "generated"
+        ctx.count(f"cse_check:{src}:" + ("ok" if c["check"] else "not-met"))
+        if c["used"] > 0:
+            ctx.count(f"cse_check:{src}:with-replacements:" + ("ok" if c["check"] else "not-met"))
+        if not c["check"]:
+            why = [k for k in ("wf", "used_ok", "pairs_ok") if not c[k]]
+            ctx.count(f"cse_check:{src}:not-met:" + "+".join(why))
+            if src == "captured":
+                uncovered.append({"cse_of": render_forest(rec["roots"]), "cse_concat": rec["cse_concat"], "cse_in_brackets": rec["cse_in_brackets"], "failed": why})
+    ctx.extra["cse_check_not_met_on_captured_calls"] = uncovered[:20]
     if len(w.seen_cse) == 0:
         ctx.tie_broken("correspondence:cse_trees", "no call of stage2.cse was captured (the wrapper on the package attribute was never reached)")
     for rec, real in items[:2]:
